@@ -458,7 +458,8 @@ func (x *Exec) convert(fr *Frame, st *State, v Value, from, to types.Type, pos t
 				s := v.(VSlice)
 				arr := x.heapGet(st, "E|uint8|", ArrSort(SInt, ArrSort(SInt, SInt)))
 				base := x.define("str", App("ofbytes", SStr, Select(arr, s.Arr), s.Off, s.Len))
-				return VStr{base, IntLit(0), s.Len}
+				x.assume(Eq(x.slen(base), s.Len))
+				return VStr{base, IntLit(0), x.slen(base)}
 			case *types.Basic:
 				if f.Info()&types.IsString != 0 {
 					return v
@@ -512,7 +513,9 @@ func (x *Exec) convert(fr *Frame, st *State, v Value, from, to types.Type, pos t
 			base := x.strTerm(s)
 			x.assume(Term{fmt.Sprintf("(forall ((k Int)) (! (=> (and (<= 0 k) (< k %s)) (= (select %s k) (sat %s k))) :pattern ((select %s k))))", s.Len.S, content.S, base.S, content.S), SBool})
 			x.heapSet(st, name, x.define("h", Store(arr, r, content)))
-			return VSlice{r, IntLit(0), s.Len, s.Len}
+			// by extensionality the bytes read back as a string are the string itself
+			x.assume(Eq(App("ofbytes", SStr, content, IntLit(0), x.slen(base)), base))
+			return VSlice{r, IntLit(0), x.define("blen", x.slen(base)), x.define("blen", x.slen(base))}
 		}
 		if _, ok := fu.(*types.Slice); ok {
 			return v
